@@ -133,6 +133,10 @@ func init() {
 			for _, m := range c.Replay["mods"].([]any) {
 				mods = append(mods, m.(string))
 			}
+			if hh, _ := c.Replay["handler_history"].(bool); hh {
+				c16HandlerHistory(c)
+				return
+			}
 			if ph, _ := c.Replay["proxy_history"].(bool); ph {
 				c16ProxyHistory(c)
 				return
@@ -186,7 +190,17 @@ func init() {
 			}
 		}
 		// the same subsets with neutral modifiers written before and after them (rules of up to twelve options)
-		pads := [][]string{{"match-case"}, {"match-case", "~third-party"}, {"match-case", "~third-party", "domain=example.org"}}
+		// option lists of every length from 1 to 17 and of 33, in every rotation, so that each position of each
+		// length is taken by a modifier that matters at least once
+		neutral := []string{"match-case", "~third-party", "domain=example.org"}
+		var pads [][]string
+		for _, k := range []int{1, 2, 3, 4, 5, 6, 7, 8, 24} {
+			var pad []string
+			for i := 0; i < k; i++ {
+				pad = append(pad, neutral[i%len(neutral)])
+			}
+			pads = append(pads, pad)
+		}
 		for mask := 0; mask < 1<<n; mask++ {
 			var mods []string
 			for i := 0; i < n; i++ {
@@ -196,18 +210,19 @@ func init() {
 			}
 			exp := c16Expected(mods)
 			for _, pad := range pads {
-				for _, padFirst := range []bool{true, false} {
-					all := append(append([]string{}, mods...), pad...)
-					if padFirst {
-						all = append(append([]string{}, pad...), mods...)
-					}
+				base := append(append([]string{}, mods...), pad...)
+				for rot := 0; rot < len(base); rot++ {
+					all := append(append([]string{}, base[rot:]...), base[:rot]...)
 					r, perr := rules.NewNetworkRule(c16RuleText(all), 1)
 					if perr != nil {
+						c.Run.Violate(ev.Violation{Pred: "option-equals-all-minus-union", Sig: map[string]any{"mods": mods, "padding": len(pad), "rotation": rot, "rejected": true},
+							What:   fmt.Sprintf("%q (%d options) is rejected: %v", c16RuleText(all), len(all), perr),
+							Replay: map[string]any{"mods": all}})
 						continue
 					}
 					c.Run.Add("evaluations", 1)
 					if got := rules.NewMatchingResult([]*rules.NetworkRule{r}, nil).GetCosmeticOption(); got != exp {
-						c.Run.Violate(ev.Violation{Pred: "option-equals-all-minus-union", Sig: map[string]any{"mods": mods, "padding": pad, "padding_first": padFirst},
+						c.Run.Violate(ev.Violation{Pred: "option-equals-all-minus-union", Sig: map[string]any{"mods": mods, "padding": len(pad), "rotation": rot},
 							What:   fmt.Sprintf("%q (%d options) gives cosmetic option %03b, expected %03b", c16RuleText(all), len(all), got, exp),
 							Replay: map[string]any{"mods": all}})
 					}
@@ -290,6 +305,11 @@ func init() {
 		} else {
 			c.Run.Set("proxy_layer", fmt.Sprintf("real proxy.Server on 127.0.0.1 in front of a local origin: every subset of %v on an exception rule for the origin x 4 client styles (request type known before / only from the response); every ordered pair of 6 pages of one host with different path-restricted exception verdicts through one proxy instance (first, second, first again)", proxyMods))
 		}
+
+		// the content-script handler: responses built and written out in every interleaving
+		hh := c16HandlerHistory(c)
+		c.Run.Set("handler_history_bodies", hh)
+		c.Run.Add("evaluations", hh)
 
 		// non-exception and absent basic rules
 		for _, text := range []string{"||example.org^", "||example.org^$important", "||example.org^$third-party", "||example.org^$script"} {
